@@ -302,9 +302,9 @@ class SimulationClone(_NativeJudge, Contract):
     name = f"{SIM}.clone"
     prop = ("C13",)
     top_level = True
-    cases = ("plain", "trace")
-    descr = ("every part of a cloned simulation refers to the clone; owned tables, mark set and tracer are its own; "
-             "the original is untouched")
+    cases = ("plain", "trace", "default-arguments", "default-arguments-of-a-traced-simulation")
+    descr = ("every part of a cloned simulation refers to the clone; owned tables, mark set and tracer are its own - also when "
+             "clone() is called without arguments, on a traced simulation or not; the original is untouched")
     inline = ("openfisca_core.commons.misc.empty_clone", "openfisca_core.commons.misc.empty_clone.<locals>.__init__",
               f"{SIM}.trace", f"{POP}.clone", f"{GPOP}.clone", f"{GPOP}.__init__", f"{POP}.__init__",
               "openfisca_core.populations._core_population.CorePopulation.__init__",
@@ -312,7 +312,17 @@ class SimulationClone(_NativeJudge, Contract):
 
     def setup(self, I, ctx, case):
         h = Heap(I, ctx)
-        return {"self": h.sim, "debug": False, "trace": case == "trace", "__heap": h, "__snap": snapshot(reachable_owned(h, h.sim))}
+        a = {"self": h.sim, "__heap": h, "__case": case}
+        if case.startswith("default-arguments"):
+            if case.endswith("traced-simulation"):
+                R = I.resolve_qualified
+                h.sim.fields["_trace"] = True
+                h.sim.fields["tracer"] = Obj(R("openfisca_core.tracers.full_tracer.FullTracer"), {"_simple_tracer": Obj(R("openfisca_core.tracers.simple_tracer.SimpleTracer"), {"_stack": ListVal([])}, label="simple"),
+                                                                                              "_trees": ListVal([]), "_current_node": None}, label="full-tracer")
+        else:
+            a.update({"debug": False, "trace": case == "trace"})
+        a["__snap"] = snapshot(reachable_owned(h, h.sim))
+        return a
 
     def post(self, I, ctx, a, out, old):
         if out[0] != "return" or not isinstance(out[1], Obj):
@@ -324,7 +334,8 @@ class SimulationClone(_NativeJudge, Contract):
                ("own-populations-table", isinstance(f.get("populations"), DictVal) and f["populations"] is not sim.fields["populations"]),
                ("own-mark-set", isinstance(f.get("invalidated_caches"), SetVal) and f["invalidated_caches"] is not sim.fields["invalidated_caches"]),
                ("own-tracer", isinstance(f.get("tracer"), Obj) and f["tracer"] is not sim.fields["tracer"]),
-               ("trace-setting-as-requested", f.get("_trace") is a["trace"])]
+               ("trace-setting-as-requested", f.get("_trace") is a["trace"]) if "trace" in a else
+               ("own-tracer-has-its-own-stack", isinstance(f.get("tracer"), Obj) and f["tracer"] is not sim.fields["tracer"])]
         pops = f.get("populations")
         if isinstance(pops, DictVal):
             res.append(("same-population-keys", set(pops.items) == set(sim.fields["populations"].items)))
